@@ -70,6 +70,12 @@ CHECKS = {
    note="The composition is always `let c = new test:c0 { ... }; export c...;`, so its externs are those of the generated component. Expected sets are computed under exact-name lookup (resolver) and semver-aware lookup (stand-alone check); their documented disagreement for semver-near names is a listed known finding, as are two limitations of worlds declared in the document (partial view of a used interface; use chains).",
    technique="property-based testing: model-predicted verdicts over perturbed (world, composition) pairs, differential between resolver, stand-alone check and the reference validator's subtyping (proptest)",
    design="C11"),
+ "C19": dict(
+   category="exploration",
+   text="The `wac` binary is built from the working tree and run (empty HOME, scratch directory per case) on: compose — programs of C04's semantic generator and hand-made compositions that only validation rejects, optionally damaged (syntax error, missing/corrupt package file, a package moved away and named with --dep, with and without a decoy left behind) x --import-dependencies x --no-validate x -t x -o x --deps-dir (all 32 flag combinations on the hand-made ones); plug — sockets and 1-4 plugs of C10's generator as files (optionally two plugs with one file stem) x -t x -o; parse — grammar-generated and damaged documents; targets — generated world/component pairs with drops, extras and type changes x --world. Every observable is compared with the same pipeline executed in-process through the library with the options the documentation assigns to the flags: exit 0 iff it succeeds; stdout / the -o file equal the library's bytes; -t output equals the text form of those bytes, assembles, validates and decodes to the same wiring; on failure a diagnostic, empty stdout and no output file; dependencies embedded vs imported as documented.",
+   note="A package missing from the file system makes the CLI try the default registry, which fails fast in the sealed sandbox (no configuration, no network); `--registry` is C20's subject and not exercised here. The binary is the CLI's default feature set (no `wat` feature: packages are .wasm files).",
+   technique="property-based testing: differential between the built CLI and the in-process library pipeline over generated inputs x flag combinations (proptest, subprocess per case)",
+   design="C19"),
  "C12": dict(
    category="exploration",
    text="Grammar-derived documents (own AST model, random layout) must parse to the derivation's tree; all single-token deletions/duplications/swaps and a fixed third of an 18-token substitution pool per position, raw insertions (forbidden code points, quotes, comment openers, separators, malformed versions) and ~140 hand-written near-miss forms are decided by a reference tokenizer+recogniser written from LANGUAGE.md; wac must agree on membership, on the tree when both accept, and locate its error inside the source when both reject.",
